@@ -97,6 +97,22 @@ class C17(fw.Prop):
                 return f"ok {fw.hx(data)} rest={fw.hx(sock.stream)} reads={sock.reads}"
             line = f"wrp recv {fw.hx(stream)} {','.join(map(str, sched)) if sched else '-'}"
             return fw.Case(line, impl, "prop", d, tags=("recv-" + d.get("tag", "x"),))
+        if op == "recv-seq":
+            # one transport object over its life: a receive that fails because the peer goes away in the middle of a message,
+            # then a new connection (a new socket) on which complete messages arrive - nothing of the old connection is left
+            parts = [(bytes.fromhex(x["stream"]), x["sched"]) for x in d["parts"]]
+
+            def impl():
+                from dlms_cosem.clients.blocking_tcp_transport import BlockingTcpTransport
+                t = BlockingTcpTransport("h", 1, 16, 1)
+                out = []
+                for stream, sched in parts:
+                    sock = ScriptedSocket(stream, sched)
+                    t.tcp_socket = sock
+                    out.append(fw.guarded(lambda: (lambda data: f"ok {fw.hx(data)} rest={fw.hx(sock.stream)} reads={sock.reads}")(t.recv()), ERR))
+                return out
+            lines = [f"wrp recv {fw.hx(st)} {','.join(map(str, sc)) if sc else '-'}" for st, sc in parts]
+            return fw.Case(lines, impl, "prop", d, tags=("recv-sequence",))
         raise fw.MachineryError(op)
 
     @staticmethod
@@ -124,6 +140,22 @@ class C17(fw.Prop):
                 yield mk({"op": "unpdu", "b": m[:-1].hex()})
                 yield mk({"op": "unpdu", "b": (m + b"\x00").hex()})
         yield mk({"op": "wrap", "c": 65536, "s": 1, "apdu": "00"})
+        # the length check does not depend on the other header fields (version, ports)
+        for version in (0, 1, 2, 257, 65535):
+            for L in (0, 1, 13):
+                apdu = bytes(rng.getrandbits(8) for _ in range(L))
+                m = self.msg(rng.choice(B), rng.choice(B), apdu, version)
+                for x in (m, m[:-1] if L else m + b"\x01", m + b"\x00", m[:8] + b"\x00" * 20):
+                    yield mk({"op": "unpdu", "b": x.hex()})
+        # sequences on one transport object
+        for _ in range(40 if deep else 8):
+            L = rng.randint(1, 30)
+            full = self.msg(1, 16, bytes(rng.getrandbits(8) for _ in range(L)))
+            cut = rng.randrange(1, len(full))
+            second = self.msg(1, 16, bytes(rng.getrandbits(8) for _ in range(rng.randint(0, 20))))
+            third = self.msg(1, 16, b"\xc4\x01\xc1\x00")
+            yield mk({"op": "recv-seq", "parts": [{"stream": full[:cut].hex(), "sched": [rng.randint(1, 9) for _ in range(rng.randint(0, 5))]},
+                                                    {"stream": (second + third).hex(), "sched": []}, {"stream": third.hex(), "sched": [3, 3]}]})
         # transport receive: every split / pair of splits for short messages
         for rep in range(10 if deep else 3):
             L = rng.randint(0, 30)
